@@ -3,8 +3,13 @@
     [C13_not_forgotten_live]; if it reports a clause of property 13 at all, it is one of the two
     clauses not yet covered here ([C13_forgotten_finished], [C13_inflight_kept]). *)
 From TP Require Import PInv PInv_P_base PInv_P PSpec PSpecStep PStep_C_drv PStep_C PMon PRun PWF
-  Thm_C12 PMonSound_trk PMonSound_gen PMonSound_C06 PMonSound_C13_kd PMonSound_C13_mod
+  PStep_D PMonSound_trk PMonSound_gen PMonSound_C06 PMonSound_C13_kd PMonSound_C13_mod
   PMonSound_C13_trk.
+
+(* the statement of Thm_C12.C12, re-derived here so that Thm_C12 can itself import the monitor
+   soundness files without a dependency cycle *)
+Lemma C12 : forall c tr, clean (run c tr) -> C12_spec (run c tr).
+Proof. intros c tr Hc. destruct (WFx_run c tr Hc). apply C12_of_WF; assumption. Qed.
 
 Definition allowed13 (cl : clause) : Prop :=
   cl = C13_forgotten_finished \/ cl = C13_inflight_kept.
